@@ -44,6 +44,7 @@ def _probes() -> tuple[list[tuple[str, type]], list[tuple[str, type]]]:
         ("arrowTypeError", pa.ArrowTypeError),
         ("arrowOther", pa.ArrowException),
         ("ipcError", IPCError),
+        ("ipcErrorLate", IPCError),
         ("unicodeDecode", UnicodeDecodeError),
         ("stopIteration", StopIteration),
     ]
@@ -193,6 +194,27 @@ def _read_tables() -> dict[str, dict[str, int | None]]:
         "initVal": _handler_table(st, t_in, val, "init"),
         "exchangeParse": _handler_table(st, t_ex, parse, "exchange"),
     }
+
+
+def _read_request_wraps() -> tuple[bool, bool]:
+    """Does `_read_request` re-raise (a) an IPCError of the first batch read, (b) any failure of the kwargs
+    materialisation (`f.name`, `.as_py()`) as `RpcError`?  (Both are then caught as RpcError by the HTTP shells.)"""
+    fn = _func(_tree("vgi_rpc/rpc/_wire.py"), "_read_request")
+
+    def raises_rpc_error(h: ast.ExceptHandler) -> bool:
+        return any(isinstance(n, ast.Raise) and isinstance(n.exc, ast.Call) and _callee(n.exc) == "RpcError" for n in ast.walk(h))
+
+    batch = False
+    kwargs = False
+    for t in [t for t in ast.walk(fn) if isinstance(t, ast.Try) and t.handlers]:
+        body_src = " ".join(ast.unparse(x) for x in t.body)
+        for h in t.handlers:
+            ty = ast.unparse(h.type) if h.type is not None else ""
+            if "read_next_batch_with_custom_metadata" in body_src and ty == "IPCError" and raises_rpc_error(h):
+                batch = True
+            if ".as_py()" in body_src and "f.name" in body_src and ty == "Exception" and raises_rpc_error(h):
+                kwargs = True
+    return batch, kwargs
 
 
 def _set_http_status() -> tuple[int, int, bool]:
@@ -443,6 +465,7 @@ def emit() -> dict[str, str]:
     parse, val = _probes()
     tables = _read_tables()
     translated, to, marker = _set_http_status()
+    wraps_batch, wraps_kwargs = _read_request_wraps()
     order, ct_status, nf_status, ct_op = _resolve_method()
     guards = {c: _resource_guard(c) for c in ("_RpcResource", "_StreamInitResource", "_ExchangeResource")}
     mw = _middleware_order()
@@ -475,6 +498,10 @@ open VgiVerif.HttpReq
 {_tbl("initVal", "ValExc", tables["initVal"])}
 /-- `_run_stream_exchange_sync`, the try around `ipc.open_stream` / `read_next_batch_with_custom_metadata` -/
 {_tbl("exchangeParse", "ParseExc", tables["exchangeParse"])}
+/-- `_read_request`: the first batch's `IPCError` / a kwargs materialisation failure is re-raised as `RpcError` -/
+def readWrapsBatchValidation : Bool := {str(wraps_batch).lower()}
+def readWrapsKwargs : Bool := {str(wraps_kwargs).lower()}
+
 /-- `_set_http_status`: `if status_code == HTTPStatus(translatedStatus): resp.status = translatedTo; set X-VGI-RPC-Error` -/
 def translatedStatus : Nat := {translated}
 def translatedTo : Nat := {to}
@@ -529,6 +556,8 @@ def tables : Tables where
   initParse := initParse
   initVal := initVal
   exchangeParse := exchangeParse
+  readWrapsBatchValidation := readWrapsBatchValidation
+  readWrapsKwargs := readWrapsKwargs
   translatedStatus := translatedStatus
   translatedTo := translatedTo
   translationSetsMarker := translationSetsMarker
